@@ -699,3 +699,64 @@ pub fn cmd_checky(args: &Args) {
         }
     }
 }
+
+/// Sparse positions in which a double pawn push is possible next to an enemy pawn, so that an en-passant
+/// capture arises at the horizon of a shallow search (for C11: quiescence must treat it as a capture).
+pub fn cmd_epq(args: &Args) {
+    use crate::h_rng::Rng;
+    crate::board::zkey::ZTable::init();
+    let seed = args.u64("seed", 1);
+    let want = args.usize("n", 50);
+    let mut rng = Rng::new(seed);
+    let mut out = 0usize;
+    let mut tries = 0usize;
+    while out < want && tries < want * 500 {
+        tries += 1;
+        let white_pushes = rng.chance(1, 2);
+        let mut b = [0u8; 64];
+        let f = rng.below(8);
+        let nf = if f == 0 { 1 } else if f == 7 { 6 } else if rng.chance(1, 2) { f - 1 } else { f + 1 };
+        if white_pushes {
+            b[8 + f] = 1; // white pawn on its second rank
+            b[24 + nf] = 7; // black pawn on the fourth rank next to the landing square
+        } else {
+            b[48 + f] = 7;
+            b[32 + nf] = 1;
+        }
+        // kings and a few more pieces on free squares (not on the pusher's path)
+        let blocked = if white_pushes { [16 + f, 24 + f] } else { [40 + f, 32 + f] };
+        let mut place = |b: &mut [u8; 64], code: u8, rng: &mut Rng| {
+            for _ in 0..100 {
+                let sq = rng.below(64);
+                if b[sq] == 0 && !blocked.contains(&sq) && !((code == 1 || code == 7) && (sq / 8 == 0 || sq / 8 == 7)) {
+                    b[sq] = code;
+                    return;
+                }
+            }
+        };
+        place(&mut b, 6, &mut rng);
+        place(&mut b, 12, &mut rng);
+        for _ in 0..rng.below(4) {
+            let k = 1 + rng.below(5) as u8;
+            let code = k + if rng.chance(1, 2) { 6 } else { 0 };
+            place(&mut b, code, &mut rng);
+        }
+        let wk = b.iter().position(|&x| x == 6).unwrap();
+        let bk = b.iter().position(|&x| x == 12).unwrap();
+        if (bk / 8).abs_diff(wk / 8) <= 1 && (bk % 8).abs_diff(wk % 8) <= 1 {
+            continue;
+        }
+        let fen = fen_of(&b, u8::from(!white_pushes), &[0, 0, 0, 0], -1, 0, 1, true);
+        let mut board = Board::from_fen(&fen);
+        let other = if board.current_turn == Color::White { Color::Black } else { Color::White };
+        if board.is_in_check(other) {
+            continue;
+        }
+        // the double push must be legal
+        if !board.get_legal_moves().iter().any(|p| p.is_double_pawn_push && p.start.file as usize == f) {
+            continue;
+        }
+        println!("{fen}");
+        out += 1;
+    }
+}
